@@ -58,6 +58,16 @@ CLAIMED['C06'] = dict(
     technique="translation validation: parse emitted SMT-LIB2, SMT equivalence query against refsem per shape",
     design_ref="DESIGN.md §3 C06", engine='refsem')
 
+CLAIMED['C07'] = dict(
+    level='translation_validation',
+    text="The Python source emitted by the real TranslatorPython is executed symbolically (identifiers = proxy ints, memory = "
+         "uninterpreted read) and z3 proves its value equal to the reference bit-vector value and inside [0, 2^size) for all "
+         "operand values, per shape and path; exceptions escaping the emitted code are violations. The construction-source "
+         "(TranslatorMiasm) round trip has no arithmetic and is run concretely as an auxiliary check on the same shapes.",
+    note="Trusted: z3, vf/refsem.py, vf/symx.py. Shift counts above 600 are outside the engine cap (inconclusive).",
+    technique="symbolic execution of the emitted Python program (proxy ints) + z3 equivalence with refsem per path",
+    design_ref="DESIGN.md §3 C07")
+
 NOT_APPLICABLE = {
 }
 
